@@ -38,7 +38,7 @@ type Case struct {
 	Ops      []Op   `json:"ops"`
 }
 
-var Types = []string{"int8", "uint16", "int32", "int64", "uint64", "float32", "float64"}
+var Types = []string{"int8", "uint16", "int32", "int64", "uint64", "float32", "float64", "NInt16", "NFloat32"}
 
 // view is the Go-slice model of a buffer header: a window of a plain storage slice.
 type view struct {
